@@ -4,6 +4,7 @@ CONSTANTS
   MaxTime = 3
   Outs <- MCOuts
   Keys <- MCKeys
+  Extended = FALSE
 INIT Init
 NEXT Next
 VIEW view
